@@ -607,6 +607,13 @@ def check_spawn(chk, prog, allowed):
             if anc.get("k") == "if" and anc.get("then") is not None and any(y is child for y in walk(anc["then"])):
                 if mentions_trigger(f, anc["cond"], trig, depth):
                     return True
+            if anc.get("k") == "switch":
+                # switch (classify_line(buff)): the directive tests live in the classifying helper; the case arm stands for one of
+                # its verdicts (which verdict is not followed - the arm is accepted when the classifier tests this directive)
+                sc_ = X.strip(anc.get("cond") if anc.get("cond") is not None else anc["ch"][0])
+                g_ = f.unit.functions.get(X.callee_name(sc_) or "") if sc_ is not None and sc_.get("k") == "call" else None
+                if g_ is not None and g_.body is not None and any(x.get("k") == "str" and trig in (x.get("sv") or "") for x in walk(g_.body)):
+                    return True
             child = anc
         return False
 
